@@ -396,8 +396,7 @@ def fam_probe(r, sid):
     b.lock(t, key, timeout=0, exp=30, flag=F_PROBE)
     b.lock(c, "k1", timeout=0, exp=30, flag=F_PROBE, tflag=0x0200)   # free + wait-when-unlock: TIMEOUT
     b.unlock(c, key, b.steps[h]["lid"])
-    if r.random() < 0.5:
-        b.sleep(400)
+    b.sleep(r.choice([400, 600]))                                # let the release reach the follower's copy (the race itself: scenarios.stale_probe)
     b.lock(c, key, timeout=0, exp=30, flag=F_PROBE)              # free now: granted by the leader
     return b.done()
 
